@@ -117,6 +117,17 @@ def check_case(case, common, out):
             continue
         if not fuse and oo.expr._name != o1.expr._name:
             viol(out, "C19.idempotent:plan-changes-on-second-optimize", f"{cid}|fuse=False", f"{o1.expr._name} -> {oo.expr._name}", replay)
+        if fuse:
+            # the fusion loop must have reached its fixed point: fusing the fused plan again changes nothing
+            try:
+                from dask_expr._expr import optimize_blockwise_fusion
+
+                again = optimize_blockwise_fusion(o1.expr)
+                bump(out, "C19.fusion:fixed-point", cid, rule="optimize_blockwise_fusion(optimize(q, fuse=True)) is the identity")
+                if again._name != o1.expr._name:
+                    viol(out, "C19.fusion:not-a-fixed-point", f"{cid}", f"fusing the fused plan again changes it: {o1.expr._name} -> {again._name}", replay)
+            except Exception as ex:
+                viol(out, "C19.fusion:refusing-fails", f"{cid}", f"{type(ex).__name__}: {str(ex)[:160]}", replay)
         if common.get("values", True):
             a, b = D.run_as_is(o1.expr), D.run_as_is(oo.expr)
             if a[0] == "ok":
